@@ -113,6 +113,45 @@ def from_pattern(pattern, flags=0):
     return _conv_seq(list(p))
 
 
+def accepted_language(pattern, method="match", flags=0):
+    """Regular expression (this module's AST) of the *whole strings* s for which re.<method>(pattern, s) succeeds, method in
+    match / fullmatch (no flags).  `^` / `\\A` are accepted at the start only; at the end `$` stands for "end, or just before a
+    final newline" and `\\Z` for the end; without an end anchor `match` accepts any continuation."""
+    if flags:
+        raise AnalysisError("regex", pattern, "flags are not modelled")
+    try:
+        items = list(sre_parse.parse(pattern, flags))
+    except Exception as e:
+        raise AnalysisError("regex", pattern, f"pattern does not parse: {e}")
+    C = sre_c
+    while items and items[0][0] is C.AT and "BEGINNING" in str(items[0][1]):
+        items = items[1:]
+    tail = ("eps",) if method == "fullmatch" else star(charset(SIGMA))
+    if items and items[-1][0] is C.AT:
+        kind = str(items[-1][1])
+        if kind.endswith("AT_END"):
+            tail = opt(lit("\n"))
+        elif kind.endswith("AT_END_STRING"):
+            tail = ("eps",)
+        else:
+            raise AnalysisError("regex", pattern, f"anchor {kind} at the end is not modelled")
+        items = items[:-1]
+
+    def no_anchor(seq):
+        for op, av in seq:
+            if op is C.AT:
+                raise AnalysisError("regex", pattern, "anchor inside the pattern is not modelled")
+            if op in (C.MAX_REPEAT, C.MIN_REPEAT):
+                no_anchor(list(av[2]))
+            elif op is C.SUBPATTERN:
+                no_anchor(list(av[-1]))
+            elif op is C.BRANCH:
+                for b in av[1]:
+                    no_anchor(list(b))
+    no_anchor(items)
+    return cat(_conv_seq(items), tail)
+
+
 def _cat_set(code):
     C = sre_c
     name = str(code)
